@@ -88,9 +88,9 @@ def parse_responses(framer, frames):
     return out
 
 
-def model_query(frontend, framer, single, units, ignore_missing, broadcast, chunks=None, schedule=None, **_):
+def model_query(frontend, framer, single, units, ignore_missing, broadcast, chunks=None, schedule=None, identity=None, **_):
     q = {'op': 'server', 'framer': framer, 'frontend': frontend, 'ignore_missing': ignore_missing,
-         'broadcast': broadcast, 'single': single, 'units': units}
+         'broadcast': broadcast, 'single': single, 'units': units, 'control': frontends.initial_control(identity)}
     if schedule is not None:
         q['schedule'] = [[i, c] for i, c in schedule]
     else:
@@ -111,8 +111,9 @@ def run_both(ctx, cfgs):
 def run_real(c):
     if c.get('schedule') is not None:
         return frontends.run_schedule(c['frontend'], c['framer'], c['single'], c['units'], c['ignore_missing'], c['broadcast'],
-                                      1 + max([i for i, _ in c['schedule']] + [0]), c['schedule'])
-    return frontends.run_frontend(c['frontend'], c['framer'], c['single'], c['units'], c['ignore_missing'], c['broadcast'], c['chunks'])
+                                      1 + max([i for i, _ in c['schedule']] + [0]), c['schedule'], c.get('identity'))
+    return frontends.run_frontend(c['frontend'], c['framer'], c['single'], c['units'], c['ignore_missing'], c['broadcast'], c['chunks'],
+                                  c.get('identity'))
 
 
 def canon_outs(frontend, outs):
@@ -123,36 +124,21 @@ def canon_outs(frontend, outs):
 
 
 def compare(rep, case, real, a, where):
-    """call-by-call comparison of a real front-end with the model.  Calls in which a request outside the modelled execute
-    methods was delivered (`opaque`) are compared on everything but the bytes written; if the real connection's liveness
-    differs from the model's at such a call (the real class raised while answering it) the rest of the history is not
-    compared at all.  Returns (agreed, comparable dumps?)"""
-    outs, escs, dumps, alive = real
+    """call-by-call comparison of a real front-end with the model: bytes written, escaped exceptions, connection
+    liveness per step; final per-unit tables and control block (message counters, listen-only flag)"""
+    outs, escs, dumps, alive, control = real
     fe = case['frontend']
     calls = a['calls']
-    n = len(calls)
-    for i, c in enumerate(calls):
-        if c.get('opaque') and alive[i] != c['running']:
-            n = i
-            rep.hist['excluded:opaque-diverged'] += 1
-            break
-    mo = canon_outs(fe, [c['out'] for c in calls[:n]])
-    ro = canon_outs(fe, outs[:n])
-    for i, c in enumerate(calls[:n]):
-        if c.get('opaque'):
-            mo[i] = ro[i] = 'opaque'
-    model = {'out': mo, 'escaped': [c['escaped'] for c in calls[:n]], 'running': [c['running'] for c in calls[:n]]}
-    realv = {'out': ro, 'escaped': escs[:n], 'running': alive[:n]}
-    if n == len(calls):
-        model['dumps'] = a['dumps']
-        realv['dumps'] = dumps
+    model = {'out': canon_outs(fe, [c['out'] for c in calls]), 'escaped': [c['escaped'] for c in calls],
+             'running': [c['running'] for c in calls], 'dumps': a['dumps'], 'control': a['control']}
+    realv = {'out': canon_outs(fe, outs), 'escaped': escs, 'running': alive, 'dumps': dumps, 'control': control}
     return rep.compare(case, realv, model, where)
 
 
 def run_real_steps(c):
     """like run_real, with the per-unit dumps before the first and after every step: (real, before, per_step)"""
     sched = c.get('schedule') if c.get('schedule') is not None else [[0, ch] for ch in c['chunks']]
-    s = frontends.Session(c['frontend'], c['framer'], c['single'], c['units'], c['ignore_missing'], c['broadcast'])
+    s = frontends.Session(c['frontend'], c['framer'], c['single'], c['units'], c['ignore_missing'], c['broadcast'], c.get('identity'))
     try:
         ids = [s.open() for _ in range(1 + max([i for i, _ in sched] + [0]))]
         before = s.dumps()
@@ -163,6 +149,6 @@ def run_real_steps(c):
             escs.append(e)
             alive.append(s.conns[ids[ci]].alive())
             per_step.append(s.dumps())
-        return (outs, escs, s.dumps(), alive), before, per_step
+        return (outs, escs, s.dumps(), alive, s.control()), before, per_step
     finally:
         s.close()
